@@ -477,6 +477,11 @@ pub fn run(o: &Opts) -> i32 {
                 gen.push(DefEntry { name: "yttrum".into(), doc: None, category: None, def: Rc::new(Def::Substance { symbol: Some("Yq".into()), properties: vec![mkprop("molar_mass", "amount", "1 mol", "mass", "7 kg")] }) });
                 gen.push(unit("aaformula", "Zq2Yq")); gen.push(unit("zzformula", "Zq3")); gen.push(unit("aaelement", "3 Yq"));
             }
+            // a unit and a quantity of one name, each with its own doc (reported as a doc conflict; which doc is kept must
+            // not depend on the order of the list)
+            { let mut d = unit("span", "2 m"); d.doc = Some("the unit span".into()); gen.push(d);
+              let mut it = rink_core::loader::gnu_units::TokenIterator::new("m^3").peekable();
+              gen.push(DefEntry { name: "span".into(), def: Rc::new(Def::Quantity { expr: ExprString(rink_core::loader::gnu_units::parse_expr(&mut it)) }), doc: Some("the quantity span".into()), category: None }); }
             // a unit and a prefix of one name, and a prefix alias that refers to the prefix
             gen.push(unit("twin", "3 m")); gen.push(mkp("twin", "1000", false)); gen.push(mkp("tw", "twin", false)); gen.push(unit("abtwin", "2 twm")); gen.push(unit("zztwin", "2 twinm + 1 twin"));
             // an identifier in an exponent, defined under a name that sorts after its user
